@@ -145,7 +145,8 @@ def main_c08(tier):
         ck.add_tlc(r, "EmuMC/%s (%s)" % (cfg, name))
         if r.violated:
             ck.violation("model %s violates %s" % (cfg, r.violated), {"tlc.out": r.out[-20000:]})
-        emuhist.conformance(ck, bdir, g, tier, limit_quick=700, limit_thorough=None, label="C08/" + name)
+        emuhist.conformance(ck, bdir, g, tier, limit_quick=700, limit_thorough=None, label="C08/" + name,
+                            pairs=150 if tier == "quick" else 5000, pair_same=emuhist.same_category)
     ck.phase("transition_cover")
     npairs = 0
     for model in ("nodes", "mpi", "tampi", "openmp", "nosv", "nanos6", "kernel"):
@@ -240,7 +241,8 @@ def main_c06(tier):
     if r.violated:
         ck.violation("model %s violates %s" % (cfg, r.violated), {"tlc.out": r.out[-20000:]})
     ck.phase("tlc")
-    hs, results, tvr = emuhist.conformance(ck, bdir, g, tier, limit_quick=2500, limit_thorough=40000, label="C06")
+    hs, results, tvr = emuhist.conformance(ck, bdir, g, tier, limit_quick=2500, limit_thorough=40000, label="C06",
+                                             pairs=500 if tier == "quick" else 10000, pair_same=emuhist.same_category)
     ck.phase("conformance")
     # re-instantiate accepted histories for every published channel
     rng = random.Random(core.seed())
